@@ -25,15 +25,14 @@ MODELLED_NOT_VERIFIED = [
     "(theorems hold for every folding); the driver is handed str.lower() of the characters that occur (one-character images only: the "
     "generators never emit characters such as U+0130 or a final sigma); metadata comments/annotations are outside the statement",
 ]
-EXPLANATION = ("Theorems (Props/C02.lean, all about the definitions drv_c02 runs): special_protected and tokenizer_tables by `decide` over the "
-               "tables regenerated from the source; tokenizer_fuel_suffices (the tokenizer model is total on every text); token_roundtrip(_kind) "
-               "and token_roundtrip_any (both protect classes; captured, whitespace or end-of-text follower): next(escape(l) ++ follower) = l for "
-               "every admissible label and consistent option triple; statement_tokens: tokenizing the whole written statement gives back the "
-               "emitted token kinds with the rooting/weight comments on the first token; newick_tokens_roundtrip: the recursive-descent parser "
-               "inverts the writer callbacks for EVERY tree (anonymous leaves included); newick_roundtrip and newick_roundtrip_tree: "
-               "parseText(writeTree t) = [t] with its rooting, over the namespace of its taxon labels, for every case folding; rooting_roundtrip, "
-               "weight_absent. Not proved (enumeration + correspondence + oracle): several statements per text, pre-filled namespaces, weights, "
-               "NEXUS block grammar, NeXML.")
+EXPLANATION = ("Theorems (Props/C02.lean, all about the definitions drv_c02 runs): special_protected, tokenizer_tables (`decide` over the regenerated "
+               "tables); tokenizer_fuel_suffices, reader_fuel_suffices (every loop of the reader model has enough fuel on every input); "
+               "token_roundtrip(_kind), token_roundtrip_any (both protect classes; captured / whitespace / end-of-text follower); statement_tokens; "
+               "newick_tokens_roundtrip (every tree, anonymous leaves included); newick_roundtrip, newick_roundtrip_tree(_weighted); "
+               "newick_list_roundtrip(_trees): several statements per text read into a pre-filled namespace; rooting_roundtrip, weight_absent, "
+               "weight_roundtrip (incl. fractions); nexus_statements_roundtrip_partial and nexus_translate_roundtrip_partial + resolve_key: the TREE "
+               "statements of a NEXUS block under the NEXUS symbol mapper (label before number, TRANSLATE token before label) - partial because "
+               "the block grammar around the statements is not modelled. NEXUS block grammar and NeXML: real round-trip oracle only.")
 
 SCHEMAS = ("newick", "nexus", "nexml")
 NONASCII = u"éÉßñλЖж"        # includes the case pairs e-acute / E-acute and ZHE / zhe (each has a one-character str.lower())
@@ -153,7 +152,7 @@ def gen_case(rng, schema=None, max_leaves=8, force=None):
             if nd[0] == "@int":
                 nd[0] = rest.pop() if rest else None
         trees.append({"spec": spec, "rooted": rng.choice([True, False, None]),
-                      "weight": rng.choice([None, None, 0.5, 2.0, 0.125])})
+                      "weight": rng.choice([None, None, 0.5, 2.0, 0.125, "3/8", "5/2"])})
     ps, uu, pu = rng.choice(CONSISTENT) if rng.random() < 0.5 else CONSISTENT[0]
     wopts, ropts = {}, {}
     if schema != "nexml":
@@ -199,7 +198,7 @@ def build_treelist(dendropy, case):
             return node
         tree = dendropy.Tree(taxon_namespace=tns, seed_node=go(t["spec"]))
         tree.is_rooted = t["rooted"]
-        tree.weight = t.get("weight")
+        tree.weight = tu.Fraction(t["weight"]) if isinstance(t.get("weight"), str) else t.get("weight")
         tl.append(tree)
     return tl
 
@@ -640,7 +639,7 @@ def run(ctx):
     rng = ctx.rng
     # own clock: the budget counts from the start of the exploration (the Lean build before it may have been cold)
     t0 = time.time()
-    budget = ctx.pick(32, 600)
+    budget = ctx.pick(28, 600)
 
     def spent():
         return time.time() - t0
